@@ -1348,6 +1348,10 @@ func isDomainOrSubdomainBytes(sub, parent []byte) bool {
 	if bytes.EqualFold(sub, parent) {
 		return true
 	}
+	if len(parent) == 0 {
+		// An empty parent must not match every sub ending with '.'.
+		return false
+	}
 	if len(sub) <= len(parent) || bytes.IndexByte(sub, ':') >= 0 || bytes.IndexByte(sub, '%') >= 0 {
 		return false
 	}
